@@ -72,6 +72,12 @@ class Tools:
                                  os.path.join(ws, "user", "build")], env=env, timeout=timeout)
         return rc, err
 
+    def startup(self, ws, full=False, timeout=600):
+        """the frontends' start-up deployment (API: start_maintenance(full) + join) in a fresh process -> (rc, started)"""
+        rc, out, err = vlib.sh2([self.deptool, "startup", os.path.join(ws, "user"), os.path.join(ws, "shared"),
+                                 os.path.join(ws, "user", "build"), "full" if full else "check"], env=self.env, timeout=timeout)
+        return rc, ("started=1" in out), err
+
     def probe(self, ws):
         rc, out, err = vlib.sh2([self.deptool, "probe-all", os.path.join(ws, "user", "build")], env=self.env, timeout=600)
         res = {}
